@@ -1,5 +1,6 @@
 import Muxide.Model.Cli
 import Muxide.Lemmas.Bytes
+import Muxide.Lemmas.Cli
 /-
   C20 — The CLI writes what the library writes and fails loudly otherwise.
   The pure logic of the binary (hex decoding, validate verdict, info walk) is modelled in
@@ -176,5 +177,132 @@ theorem C20_info_terminates (fuel : Nat) (buf : Bytes) (off : Nat) :
           · have := ih (off + size)
             simp only [List.length_cons]
             omega
+
+/-! ## validate ⇄ mux: the converse direction
+
+Each aligned pair must be two ASCII hex digits (`hexPair`); `u8::from_str_radix` alone would also
+take a leading `+` (`"+a"` = 10), which `validate` never accepted — that corner was a defect of the
+original tool (mux decoded files that validate rejected) and is repaired: see `C20_plus_rejected`. -/
+
+/-- the repaired corner: the two-character text `+a` is refused by `mux`'s decoder -/
+theorem C20_plus_rejected : readHexBytes [43, 97] = none := by decide
+
+/-- what `mux` accepts (decoder-independent): the non-whitespace characters are a non-empty,
+    even-length string over `0-9A-Fa-f` -/
+theorem C20_mux_input_char (chars : List Nat) :
+    (∃ d, readHexBytes chars = some d ∧ d ≠ []) ↔
+      (let hexs := chars.filter (fun c => !isRustWhitespace c)
+       hexs ≠ [] ∧ hexs.length % 2 = 0 ∧
+         ∀ c ∈ hexs, (48 ≤ c ∧ c ≤ 57) ∨ (65 ≤ c ∧ c ≤ 70) ∨ (97 ≤ c ∧ c ≤ 102)) := by
+  simp only [← hexVal_isSome_iff]
+  constructor
+  · rintro ⟨d, hr, hd⟩
+    unfold readHexBytes at hr
+    simp only [] at hr
+    split at hr
+    · simp at hr
+    · have hlen := hexPairs_length _ _ hr
+      refine ⟨?_, (hexPairs_isSome_iff _).mp (by rw [hr]; rfl)⟩
+      intro e; rw [e] at hlen
+      cases d with
+      | nil => exact hd rfl
+      | cons _ _ => simp at hlen
+  · rintro ⟨hne, hok⟩
+    obtain ⟨d, hd⟩ := Option.isSome_iff_exists.mp ((hexPairs_isSome_iff _).mpr hok)
+    have hn : (chars.filter (fun c => !isRustWhitespace c)).any (· ≥ 128) = false := by
+      rw [List.any_eq_false]
+      intro c hc
+      have := hexVal_ascii c (hok.2 c hc)
+      simp; omega
+    refine ⟨d, by unfold readHexBytes; simp only [hn]; simpa using hd, ?_⟩
+    intro e; subst e
+    have := hexPairs_length _ _ hd
+    exact hne (List.length_eq_zero_iff.mp (by rw [this]; rfl))
+
+/-- explicit characterisation of `validate`'s verdict, independent of the decoder: strict UTF-8,
+    and the non-whitespace characters are a non-empty, even-length string over `0-9A-Fa-f` -/
+theorem C20_validate_char (content : Bytes) :
+    hexFileValid content = true ↔
+      ∃ chars, utf8Strict content = some chars ∧
+        (let hexs := chars.filter (fun c => !isRustWhitespace c)
+         hexs ≠ [] ∧ hexs.length % 2 = 0 ∧
+           ∀ c ∈ hexs, (48 ≤ c ∧ c ≤ 57) ∨ (65 ≤ c ∧ c ≤ 70) ∨ (97 ≤ c ∧ c ≤ 102)) := by
+  unfold hexFileValid
+  cases hu : utf8Strict content with
+  | none => simp
+  | some chars =>
+    simp only [Bool.and_eq_true, Bool.not_eq_true', beq_iff_eq, List.all_eq_true,
+      List.isEmpty_eq_false_iff, Option.some.injEq, exists_eq_left', hexVal_isSome_iff, and_assoc]
+
+/-- converse of `C20_validate_sound`: whatever `mux` can decode to a non-empty frame, `validate`
+    calls valid hex -/
+theorem C20_validate_complete (content : Bytes) (chars : List Nat) (d : Bytes)
+    (hu : utf8Strict content = some chars) (hr : readHexBytes chars = some d) (hd : d ≠ []) :
+    hexFileValid content = true :=
+  (C20_validate_char content).mpr ⟨chars, hu, (C20_mux_input_char chars).mp ⟨d, hr, hd⟩⟩
+
+/-- `validate` says "valid" exactly for the inputs `mux` can decode to a non-empty frame -/
+theorem C20_validate_iff_mux_input (content : Bytes) :
+    hexFileValid content = true ↔
+      ∃ chars d, utf8Strict content = some chars ∧ readHexBytes chars = some d ∧ d ≠ [] :=
+  ⟨C20_validate_sound content, fun ⟨chars, d, hu, hr, hd⟩ => C20_validate_complete content chars d hu hr hd⟩
+
+/-! ## info ⇄ the independent reader -/
+
+/-- the `info` walk agrees with the independent reader on every file the reader accepts (no side
+    condition: the empty file gives `[]` on both sides, boxes of size exactly 8 are listed, and
+    the reader rejects sizes 0, 1 and < 8 so they never reach the conclusion): the listed
+    (type, offset, size) triples are the reader's top-level layout and no entry is flagged -/
+theorem C20_info_matches_reader (buf : Bytes) (boxes : List Box)
+    (h : Spec.parseFileTree buf = some boxes) :
+    (infoBoxes buf).map (fun e => (e.typ, e.offset, e.size)) = Spec.topLayout boxes 0 ∧
+    (∀ e ∈ infoBoxes buf, e.invalid = false) ∧
+    (infoBoxes buf).length = boxes.length ∧ Box.sizes boxes = buf.length := by
+  unfold Spec.parseFileTree at h
+  have e := infoBoxes_parse _ _ buf boxes h
+  rw [e]
+  refine ⟨infoEntriesOf_layout boxes 0, infoEntriesOf_valid boxes 0, ?_, parseBoxes_sizes _ _ _ _ h⟩
+  have := congrArg List.length (infoEntriesOf_layout boxes 0)
+  simp only [List.length_map] at this
+  rw [this]
+  clear this e h
+  generalize 0 = o
+  induction boxes generalizing o with
+  | nil => rfl
+  | cons b bs ih => simp [Spec.topLayout, ih]
+
+/-- for arbitrary bytes, the entries `info` lists without the "exceeds file" flag tile a prefix of
+    the file: their offsets are the running sum of their sizes from 0, and they fit in the file -/
+theorem C20_info_prefix_tiling (buf : Bytes) :
+    let es := (infoBoxes buf).filter (fun e => !e.invalid)
+    es.map (·.offset) = runningOffsets (es.map (·.size)) 0 ∧ (es.map (·.size)).sum ≤ buf.length := by
+  have := infoWalk_tiles (buf.length + 1) buf 0
+  unfold infoBoxes
+  simp only [] at this ⊢
+  exact ⟨this.1, by have := this.2 (Nat.zero_le _); omega⟩
+
+/-! ## Non-vacuity -/
+
+/-- a hand-written 20-byte file: an empty `free` box and a `skip` box with 4 payload bytes -/
+def exFile : Bytes := [0, 0, 0, 8, 102, 114, 101, 101, 0, 0, 0, 12, 115, 107, 105, 112, 1, 2, 3, 4]
+
+/-- the reader accepts it (two childless boxes), so `C20_info_matches_reader` applies -/
+example : (Spec.parseFileTree exFile).map (List.map fun b => (b.typ, b.pre, b.kids.length)) =
+    some [([102, 114, 101, 101], [], 0), ([115, 107, 105, 112], [1, 2, 3, 4], 0)] := by decide +kernel
+example : (Spec.parseFileTree exFile).map (Spec.topLayout · 0) =
+    some [([102, 114, 101, 101], 0, 8), ([115, 107, 105, 112], 8, 12)] := by decide +kernel
+example : (infoBoxes exFile).map (fun e => (e.typ, e.offset, e.size)) =
+    [([102, 114, 101, 101], 0, 8), ([115, 107, 105, 112], 8, 12)] := by decide
+example : infoBoxes exFile =
+    [⟨[102, 114, 101, 101], 8, 0, false⟩, ⟨[115, 107, 105, 112], 12, 8, false⟩] := by decide
+example : Spec.topLayout [Box.mk [102, 114, 101, 101] [] [], Box.mk [115, 107, 105, 112] [1, 2, 3, 4] []] 0 =
+    [([102, 114, 101, 101], 0, 8), ([115, 107, 105, 112], 8, 12)] := by decide
+/-- a truncated file: the second box claims 12 bytes but only 8 remain → flagged, filtered out -/
+example : infoBoxes (exFile.take 16) =
+    [⟨[102, 114, 101, 101], 8, 0, false⟩, ⟨[115, 107, 105, 112], 12, 8, true⟩] := by decide
+/-- the hypotheses of the validate theorems are satisfiable: `0a 1F` -/
+example : hexFileValid [48, 97, 32, 49, 70] = true := by decide
+example : utf8Strict [48, 97, 32, 49, 70] = some [48, 97, 32, 49, 70] ∧
+    readHexBytes [48, 97, 32, 49, 70] = some [0x0a, 0x1f] := by decide
 
 end Muxide.Props.C20
